@@ -161,7 +161,7 @@ def run(ctx):
     runs = []
     for c in cases:
         runs.append(dict(id=c["id"], sched=0))
-    racy = [c for c in cases if _can_race(c) and len(c["plan"]) == 1]
+    racy = [c for c in cases if _can_race(c) and len(c["plan"]) == 1 and c["conc"] == 1]
     multi = [c for c in cases if len(c["plan"]) > 1]
     # re-executed Query values also under racing schedules (a prefetch of an abandoned iterator under way)
     racy += [c for c in multi if _can_race(c)]
@@ -173,10 +173,10 @@ def run(ctx):
     for k, r in enumerate(runs):
         r["run"] = k + 1
         c = byid[r["id"]]
-        for f in ("pages", "q", "kind", "fail", "mode", "start", "prep", "skip", "size", "plan", "rebind", "opt"):
+        for f in ("pages", "q", "kind", "fail", "mode", "start", "prep", "skip", "size", "plan", "rebind", "opt", "conc"):
             r[f] = c[f]
     byrun = {r["run"]: r for r in runs}      # job number -> job
-    nexec = sum(len(r["plan"]) for r in runs)
+    nexec = sum(max(len(r["plan"]), r["conc"]) for r in runs)
     rp = os.path.join(ctx.tmp, "c15_runs.ndjson")
     vf.write_ndjson(rp, runs)
     ctx.log("cases=%d (re-executing one Query value: %d; can race: %d) jobs=%d iterations=%d" % (
@@ -257,6 +257,8 @@ def run(ctx):
             ", skip-metadata" if run["skip"] else "", ", racing schedule %d" % run["sched"] if run["sched"] else "")
         if run.get("opt", "none") != "none":
             d += ", option " + run["opt"]
+        if run["conc"] > 1:
+            d += ", one of %d goroutines iterating the same prepared statement at once (own bound key each)" % run["conc"]
         if len(run["plan"]) > 1:
             d += ", execution %d of the same Query value (plan %s: rows taken before Close, -1 = all%s)" % (
                 ex, run["plan"], "; re-Bind before each re-execution" if run["rebind"] else "")
@@ -294,6 +296,8 @@ def run(ctx):
             diffs.append("ended with %r, the failed fetch was that of page %d" % (res["errmsg"], exp["err"]))
         if run["mode"] == "manual" and res["ended"] == "normal" and res["exposed"] != exp["exposed"]:
             diffs.append("PageState() shows token %d, the page carried %d" % (res["exposed"], exp["exposed"]))
+        if res.get("changed"):
+            diffs.append("%d of the rows the caller kept had other content when read again after the iteration" % res["changed"])
         if res["qtok"] not in (-2, run["start"]):
             diffs.append("the execution left paging state token %d in the caller's Query (the caller had put in %d)" % (
                 res["qtok"], run["start"]))
@@ -311,6 +315,8 @@ def run(ctx):
                 key = "%s/%s/%s" % (f["kind"], run["kind"], run["mode"])
                 if run.get("opt", "none") != "none":
                     key += "/opt-" + run["opt"]
+                if run["conc"] > 1:
+                    key += "/concurrent"
                 if res["exec"] > 1:
                     key += "/re-executed"
                 e = viol.setdefault(key, dict(n=0, what=what, detail=dict(case=byid[run["id"]], run=run, observed=res, finding=f)))
@@ -340,7 +346,7 @@ def run(ctx):
         model_configs=[dict(cfg="MC_Paging_live (VF_C15_DEV)" if dev else "MC_Paging_full", distinct=mc.distinct, generated=mc.generated, depth=mc.depth),
                        dict(cfg="MC_Paging_live" if quick else "MC_Paging_livefull", distinct=live.distinct, generated=live.generated),
                        dict(cfg="MC_Paging_reexec", distinct=rex.distinct, generated=rex.generated, depth=rex.depth)],
-        samples=[dict(case={k: srun[k] for k in ("pages", "q", "kind", "fail", "mode", "start", "prep", "skip", "size", "sched", "plan", "rebind", "opt")},
+        samples=[dict(case={k: srun[k] for k in ("pages", "q", "kind", "fail", "mode", "start", "prep", "skip", "size", "sched", "plan", "rebind", "opt", "conc")},
                       expected=byid[srun["id"]]["exp"],
                       observed={k: sample[k] for k in ("exec", "reqs", "rows", "ended", "err", "exposed", "qtok")})],
     )
